@@ -111,6 +111,9 @@ class Gen:
                 elif cmd == 'identcount':
                     self.do_identcount(d[1], d[2:])
                     i += 1
+                elif cmd == 'guardcensus':
+                    self.do_guardcensus(d[1], d[2], _opts(d[3:]))
+                    i += 1
                 elif cmd == 'census':
                     self.do_census(d[1], d[2], d[3], _opts(d[4:]))
                     i += 1
@@ -173,7 +176,7 @@ class Gen:
                     out.append('//@ skipblock')
                 elif as_stub and s.startswith('//@ fn '):
                     out.append(ln.replace('//@ fn ', '//@ stub ', 1))
-                elif as_stub and (s.startswith('//@ identcount ') or s.startswith('//@ census ')):
+                elif as_stub and (s.startswith('//@ identcount ') or s.startswith('//@ census ') or s.startswith('//@ guardcensus ')):
                     # syntactic census obligations belong to the unit that proves the functions they talk about
                     continue
                 else:
@@ -560,6 +563,54 @@ class Gen:
             got = seen.get(rel, 0)
             self.syntactic.append(('crate', 'census/%s-occurs-%d-times-in-%s' % (ident, want, rel), got == want,
                                    '%d occurrence(s) of `%s` in %s (expected %d)' % (got, ident, rel, want), props, (rel, 0)))
+
+    def do_guardcensus(self, ident, rel, opts):
+        """Syntactic census of the places where a switch is READ in an `if` condition (file `rel`): each such `if` has no
+        `else`, and its block is a side block - no return / break / continue / `?`, no assignment, and calls only the
+        functions named in `allow=` - so control rejoins the unguarded path whatever the switch says.  `sites=n` pins
+        the number of such guards."""
+        props = [p for p in opts.get('props', '').split(',') if p]
+        allow = set(x for x in opts.get('allow', '').split(',') if x)
+        f = self.rf(rel)
+        masked = f.masked
+        spans = f._test_mod_spans()
+        sites = []
+        for m in re.finditer(r'\b%s\b' % re.escape(ident), masked):
+            if any(a <= m.start() < b for a, b in spans):
+                continue
+            # inside an `if` condition?  walk back to the nearest `if` with no `{`, `}` or `;` in between
+            k = m.start()
+            seg_start = max(masked.rfind('{', 0, k), masked.rfind('}', 0, k), masked.rfind(';', 0, k)) + 1
+            mi = None
+            for mm in re.finditer(r'\bif\b', masked[seg_start:k]):
+                mi = mm
+            if mi is None:
+                continue
+            bo = rsx.first_open_brace(masked, k)
+            bc = rsx.match_close(masked, bo)
+            block = masked[bo + 1:bc]
+            line = masked.count('\n', 0, k) + 1
+            problems = []
+            if re.match(r'\s*else\b', masked[bc + 1:bc + 12]):
+                problems.append('has an else branch')
+            if re.search(r'\b(return|break|continue)\b', block):
+                problems.append('leaves the block early (return / break / continue)')
+            if '?' in block:
+                problems.append('propagates an error out of the block (`?`)')
+            # `let p = e` / `if let p = e` bind locals; anything else with a bare `=` (or `op=`) writes state
+            if re.search(r'(?<![=!<>])=(?![=>])', re.sub(r'\blet\b[^=;{}]*=(?!=)', 'let ', block)):
+                problems.append('assigns inside the block')
+            callees = set(re.findall(r'\b([A-Za-z_]\w*)\s*!?\s*\(', block)) - {'if', 'match', 'while', 'for', 'Some', 'Ok', 'Err'}
+            extra = sorted(callees - allow)
+            if extra:
+                problems.append('calls %s' % ', '.join(extra))
+            sites.append((line, problems))
+        for (line, problems) in sites:
+            self.syntactic.append(('crate', 'census/the-%s-guard-at-%s-is-a-side-block' % (ident, rel), not problems,
+                                   'guard on `%s` at %s:%d: %s' % (ident, rel, line, '; '.join(problems) or 'side block'), props, (rel, line)))
+        if 'sites' in opts:
+            self.syntactic.append(('crate', 'census/%s-guards-%d-blocks-in-%s' % (ident, int(opts['sites']), rel), len(sites) == int(opts['sites']),
+                                   '%d guarded block(s) on `%s` in %s (expected %s)' % (len(sites), ident, rel, opts['sites']), props, (rel, 0)))
 
     def do_census(self, rel, impl_match, name, opts):
         """Syntactic census of a function that is NOT brought under Verus: loop count / call-site counts only."""
